@@ -109,12 +109,19 @@ def build_model(torch, sc):
 
 
 def run_model(torch, U, sc):
-    """Drive optimize_prec_assignment on a whole model; returns the trace (or a 'skip' record)."""
+    """Drive optimize_prec_assignment on a whole (freshly built) model; returns the trace (or a 'skip' record)."""
+    return observe_refine(torch, U, build_model(torch, sc), prepare=True)
+
+
+def observe_refine(torch, U, m, prepare, cb=None):
+    """Run optimize_prec_assignment on model m and record the trace.  prepare=True: the model is first put into
+    arg-max sampling (a fresh model); prepare=False: the model is taken exactly as its history left it (its sampling
+    options / theta_alpha are not touched) and the cost before is the given cb (arg-max cost of a fresh model)."""
     from plinio.methods.mps.nn.qtz import MPSPerChannelQtz
-    m = build_model(torch, sc)
-    m.update_softmax_options(hard=True)
-    with torch.no_grad():
-        m(m._input_example)
+    if prepare:
+        m.update_softmax_options(hard=True)
+        with torch.no_grad():
+            m(m._input_example)
     layers = {ln: l for ln, _, l in m._unique_leaf_modules
               if isinstance(getattr(l, "w_mps_quantizer", None), MPSPerChannelQtz)}
     bits = {ln: [int(b) for b in l.w_mps_quantizer.precision.tolist()] for ln, l in layers.items()}
@@ -122,7 +129,8 @@ def run_model(torch, U, sc):
     scores = {ln: _ranks(l.w_mps_quantizer.alpha.detach()) for ln, l in layers.items()}
     if any(s is None for s in scores.values()):
         return {"skip": "ties in alpha"}
-    cb = float(m.get_cost("ne16").detach())
+    if prepare:
+        cb = float(m.get_cost("ne16").detach())
 
     log = {"cur": None, "cc": {}, "re": {}}
     o_cc, o_re = U._compute_cost, U._reassign_precisions
@@ -175,6 +183,125 @@ def run_model(torch, U, sc):
     return {"k": "model", "cb": centi(cb), "ca": centi(ca), "layers": L}
 
 
+# ------------------------------------------------------------------------------------- sampling life cycle
+LIFE_BITS = (4, 8)
+LIFE_WIDTHS = (8, 16)                       # power-of-two channel counts (1/C exact in float32: no F27 artefacts)
+LIFE_ALPHA = {"A": ((2, 6), (2, 14), 0), "B": ((3, 5), (1, 15), 1)}    # per-precision counts of c1, c2; phase
+
+
+def _trained_like(torch, counts, n, phase):
+    """Converged-looking coefficients: every channel clearly prefers one precision (margin 3), small ripple."""
+    import math
+    assign = [p for p, k in enumerate(counts) for _ in range(k)]
+    assign = [assign[(c * 5 + phase) % n] for c in range(n)]
+    a = torch.tensor([[0.3 * math.sin(1.7 * p + 0.9 * c * (p + 1) + phase) for c in range(n)]
+                      for p in range(len(counts))], dtype=torch.float32)
+    for c, p in enumerate(assign):
+        a[p, c] += 3.0
+    return a
+
+
+class LifeBench:
+    """A small clean per-channel MPS/NE16 model (ascending precisions, power-of-two widths, trained-like alpha) on
+    which pre-histories of public calls are executed before optimize_prec_assignment."""
+
+    def __init__(self, torch, U):
+        import copy
+        import torch.nn as nn
+        from plinio.methods.mps import MPS, MPSType, get_default_qinfo
+        from plinio.cost import ne16_latency
+        from plinio.methods.mps.nn.qtz import MPSPerChannelQtz
+        self.torch, self.U, self.copy, self.Q = torch, U, copy, MPSPerChannelQtz
+        c1, c2 = LIFE_WIDTHS
+
+        class Net(nn.Module):
+            def __init__(self):
+                super().__init__()
+                self.c1 = nn.Conv2d(3, c1, 3, padding=1)
+                self.c2 = nn.Conv2d(c1, c2, 3, padding=1)
+
+            def forward(self, x):
+                return self.c2(torch.relu(self.c1(x)))
+
+        torch.manual_seed(1234)
+        self.pristine = MPS(Net(), cost={"ne16": ne16_latency}, input_shape=(3, 6, 6),
+                            w_search_type=MPSType.PER_CHANNEL,
+                            qinfo=get_default_qinfo(w_precision=LIFE_BITS, a_precision=(8,)))
+        if not self.pristine.training:
+            raise tlc.MachineryError("life bench: a freshly built model is expected to be in training mode")
+        self._fresh = {}
+
+    def qtz(self, m):
+        return {n.split(".")[1]: q for n, q in m.named_modules() if isinstance(q, self.Q)}
+
+    def write(self, m, which):
+        k1, k2, ph = LIFE_ALPHA[which]
+        q = self.qtz(m)
+        q["c1"].alpha.data = _trained_like(self.torch, k1, LIFE_WIDTHS[0], ph)
+        q["c2"].alpha.data = _trained_like(self.torch, k2, LIFE_WIDTHS[1], ph)
+
+    def fresh(self, which):
+        """Outcome of the refinement on a fresh model holding alpha set `which`."""
+        if which not in self._fresh:
+            m = self.copy.deepcopy(self.pristine)
+            self.write(m, which)
+            self._fresh[which] = observe_refine(self.torch, self.U, m, prepare=True)
+        return self._fresh[which]
+
+    def run(self, hist):
+        torch = self.torch
+        m = self.copy.deepcopy(self.pristine)
+        which = "A"
+        self.write(m, which)                       # = Reassign!LifeInit
+        torch.manual_seed(99)                      # Gumbel noise reproducible
+        for a in hist:
+            if a == "train":
+                m.train()
+            elif a == "eval":
+                m.eval()
+            elif a == "fwd":
+                with torch.no_grad():
+                    m(m._input_example)
+            elif a in ("hard1", "hard0"):
+                m.update_softmax_options(hard=a.endswith("1"))
+            elif a in ("gumbel1", "gumbel0"):
+                m.update_softmax_options(gumbel=a.endswith("1"))
+            elif a in ("dis1", "dis0"):
+                m.update_softmax_options(disable_sampling=a.endswith("1"))
+            elif a == "temp_low":
+                m.update_softmax_options(temperature=0.5)
+            elif a == "temp_one":
+                m.update_softmax_options(temperature=1.0)
+            elif a == "write":
+                which = "B" if which == "A" else "A"
+                self.write(m, which)
+            else:
+                raise tlc.MachineryError(f"unknown life action {a}")
+        # projection of the real model just before the refinement
+        q = self.qtz(m)
+        th = [x.theta_alpha.detach() for x in q.values()]
+        al = [x.alpha.detach() for x in q.values()]
+        onehot = all(bool(((t == 0) | (t == 1)).all()) and bool((t.sum(0) == 1).all()) for t in th)
+        hotcur = onehot and all(bool((t.argmax(0) == a_.argmax(0)).all()) for t, a_ in zip(th, al))
+        q0 = next(iter(q.values()))
+        pre = {"train": bool(m.training), "hard": bool(getattr(q0, "hard_softmax", False)),
+               "gumbel": bool(getattr(q0, "gumbel_softmax", False)),
+               "disable": bool(getattr(q0, "disable_sampling", False)),
+               "temp": "low" if float(q0.temperature) < 0.75 else "one", "onehot": onehot, "hotcur": hotcur}
+        fr = self.fresh(which)
+        if "skip" in fr:
+            raise tlc.MachineryError("life bench: fresh model skipped: " + fr["skip"])
+        try:
+            obs = observe_refine(torch, self.U, m, prepare=False, cb=fr["cb"] / 100.0)
+        except tlc.MachineryError:
+            raise
+        except Exception as e:      # the refinement itself failed on this history (it works on the fresh model)
+            obs = {"skip": type(e).__name__ + ": " + str(e)[:80]}
+        if "skip" in obs:
+            return {"k": "mlife", "hist": list(hist), "pre": pre, "raised": obs["skip"], "fresh": fr}
+        return {"k": "mlife", "hist": list(hist), "pre": pre, "obs": obs, "fresh": fr}
+
+
 def random_model_scenario(rng, big):
     bits = list(rng.choice(ASC_BITS) if rng.random() < 0.85 else rng.choice(OTHER_BITS))
     hi = 70 if big else 40
@@ -190,20 +317,23 @@ def run(tier: str, seed: int, replay=None) -> int:
               "size 2x3 (every final state of the TLC run) plus seeded random matrices 2x4..4x8 x random compositions; "
               "and (layer widths, precision tuple, seed of the random alpha) for whole per-channel MPS models "
               "conv3x3-conv1x1-linear with the NE16 cost. Non-trivial = targets differ from the current counts / the "
-              "refinement changed at least one layer.")
+              "refinement changed at least one layer. Life cycle: scenario = sequence of public calls made on a clean model before the refinement (every behaviour of ReassignLife up to the bound); non-trivial = non-empty pre-history.")
     R.assumptions = [
         "score matrices are tie-free (float ties make torch.argsort order unspecified); alphas of whole models are random reals, logged as ranks",
         "target_count = int(best[p]) is computed by the harness exactly like the function does and handed to the transcription",
         "counts compared after rounding to the nearest integer (|x-round x| <= 0.002); costs in 1/100 cycle with slack 1 + cost/1e5",
         "whole models: conv3x3 -> conv1x1 -> linear, activations 8 bit (NE16 requirement); depthwise layers not generated",
         "the searches and _compute_cost are observed by wrapping the two module-level helpers from outside",
+        "life cycle: every pre-history of at most 2 (thorough: 3) public calls out of 12 (train, eval, forward, each single sampling option on/off, two temperatures, alpha write) on a clean model (conv3x3 8 and 16 channels, precisions (4,8), trained-like alpha with margin 3, so that F18/F27/F28 do not interfere); outcome compared with a fresh model holding the same alpha; Gumbel noise seeded",
     ]
     torch, U = _env()
     torch.set_num_threads(2)
 
     if replay:
         sc = json.load(open(replay))["scenario"]
-        if sc["kind"] == "model":
+        if sc["kind"] == "mlife":
+            tr = LifeBench(torch, U).run(sc["hist"])
+        elif sc["kind"] == "model":
             tr = run_model(torch, U, sc)
         else:
             tr = {"k": "fn", "scores": sc["scores"], "best": sc["best"], "out": run_fn(torch, U, sc["scores"], sc["best"])}
@@ -295,6 +425,34 @@ def run(tier: str, seed: int, replay=None) -> int:
     if not R.violations and viol_states != design_bad:
         R.notes.append("design/as-is count and observed count differ")
         R.drift.append(f"drift:C20 as-is transcription violates counts on {design_bad} of 2880 inputs, the real function on {viol_states}")
+
+    # ---- 3b. sampling life cycle before the refinement (history independence)
+    ldot = tempfile.mktemp(prefix="c20l-", suffix=".dot", dir=tlc.scratch())
+    lres = R.design("ReassignLife", "ReassignLife_thorough" if thorough else "ReassignLife_quick", workers=4,
+                    dump_dot=ldot, coverage=True, require_cov=["ReassignLife!Do"], env=JENV)
+    R.design("ReassignLife", "ReassignLife_closure", workers=4, env=JENV)            # histories of any length
+    R.design("ReassignLife", "ReassignLife_hardOnly", workers=4, expect_ok=False, env=JENV)   # must be caught
+    R.design("ReassignLife", "ReassignLife_evalMode", workers=4, expect_ok=False, env=JENV)   # must be caught
+    R.design("ReassignLife", "ReassignLife_needed", workers=4, expect_ok=False, env=JENV)     # preparation is needed
+    lnodes, _, _ = tlc.parse_dot(ldot)
+    if len(lnodes) != lres.distinct:
+        raise tlc.MachineryError(f"dump has {len(lnodes)} states, TLC reported {lres.distinct}")
+    bench = LifeBench(torch, U)
+    ltr, lsc = [], []
+    for stt in lnodes.values():
+        h = list(stt["hist"])
+        ltr.append(bench.run(h))
+        lsc.append({"kind": "mlife", "hist": h})
+    # non-vacuity: on the clean model the refinement really chooses other counts than the current ones
+    fresh_changed = {w: any([round(b / 1e6) for b in l["bestu"]] != [l["before"].count(p + 1) for p in range(len(l["bits"]))]
+                            for l in bench.fresh(w)["layers"]) for w in ("A", "B")}
+    if not all(fresh_changed.values()):
+        raise tlc.MachineryError("life bench: the refinement of the fresh clean model is trivial")
+    R.extra["life_histories_replayed"] = len(ltr)
+    R.sample({"scenario": lsc[-1], "observed": {"pre": ltr[-1]["pre"],
+                                                "chosen": [l["bestu"] for l in ltr[-1].get("obs", {"layers": []})["layers"]]}})
+    R.validate("ReassignTrace", "ReassignTrace", ltr, lsc, nontrivial=lambda s_: len(s_["hist"]) > 0,
+               label="sampling life cycle", workers=8, env=JENV)
 
     # ---- 4. whole models
     n_models = 260 if thorough else 36
